@@ -8,7 +8,12 @@ Nothing in here decides the property; the vectors go to TLC
 import re
 import struct
 import math
-from datetime import datetime, timedelta, timezone
+from datetime import datetime, timedelta, timezone, tzinfo
+try:
+    import zoneinfo
+    zoneinfo.ZoneInfo("Etc/GMT+5")
+except Exception:  # noqa: no zoneinfo module / no tz database
+    zoneinfo = None
 
 import pywbem
 from pywbem import (CIMDateTime, CIMProperty, CIMQualifier, CIMParameter,
@@ -311,23 +316,96 @@ def observe_built(build):
     return x, ev
 
 
-def dt_vector(route, build, want=None, inp=None):
+def dt_vector(route, build, want=None, inp=None, carrier=""):
     x, ev = observe_built(build)
     ev.update(k="dt", route=route, haswant=want is not None,
               want=want if want is not None else NOVALUE,
-              inp=list(inp) if inp is not None else [])
+              inp=list(inp) if inp is not None else [], carrier=carrier)
     return x, ev
 
 
-def tzinfo_for(rng, off):
-    if rng.random() < 0.5:
+class UserTz(tzinfo):
+    """a user-defined fixed-offset tzinfo (spec carrier class "usertz")"""
+
+    def __init__(self, minutes, dst=0):
+        self._off = timedelta(minutes=minutes)
+        self._dst = timedelta(minutes=dst)
+
+    def utcoffset(self, dt):
+        return self._off
+
+    def dst(self, dt):
+        return self._dst
+
+    def tzname(self, dt):
+        return "user%+d" % (self._off.total_seconds() // 60)
+
+    def __repr__(self):
+        return "UserTz(%d)" % (self._off.total_seconds() // 60)
+
+
+def carrier_available(carrier):
+    return carrier != "zoneinfo" or zoneinfo is not None
+
+
+def tzinfo_of(rng, carrier, off):
+    """concrete tzinfo object of the spec's TzCarriers class for offset off
+    (minutes); the spec (CarrierCan) decides which classes can carry off"""
+    if carrier == "naive":
+        return None
+    if carrier == "MinutesFromUTC":
         return MinutesFromUTC(off)
-    return timezone(timedelta(minutes=off))
+    if carrier == "timezone":
+        if off == 0 and rng.random() < 0.5:
+            return timezone.utc
+        if rng.random() < 0.5:
+            return timezone(timedelta(minutes=off), "Z%d" % off)
+        return timezone(timedelta(minutes=off))
+    if carrier == "usertz":
+        return UserTz(off, rng.choice([0, 0, 60]))
+    if carrier == "zoneinfo":
+        h = off // 60   # Etc/GMT+5 is 5 hours WEST of UTC
+        return zoneinfo.ZoneInfo("Etc/GMT%s%d" % ("-" if h > 0 else "+",
+                                                    abs(h)) if h else
+                                 rng.choice(["Etc/GMT", "UTC", "Etc/UTC"]))
+    raise ValueError("unknown tz carrier %r" % carrier)
 
 
-def dt_vectors_for_value(rng, x, s):
+def pick_carrier(rng, table, off):
+    """a random carrier class that the spec's table allows for off"""
+    cs = sorted(c for c, offs in table.items()
+                if off in offs and carrier_available(c))
+    return rng.choice(cs)
+
+
+def from_object(rng, arg):
+    """entry points that build a CIMDateTime from a datetime / timedelta
+    object: -> (build, description)"""
+    via = rng.choice(["CIMDateTime", "CIMDateTime", "cimvalue",
+                      "cimvalue-infer", "CIMProperty", "CIMProperty-infer",
+                      "CIMQualifier", "CIMParameter"])
+    if via == "CIMDateTime":
+        build = lambda: CIMDateTime(arg)
+    elif via == "cimvalue":
+        build = lambda: cimvalue(arg, "datetime")
+    elif via == "cimvalue-infer":
+        build = lambda: cimvalue(arg, None)
+    elif via == "CIMProperty":
+        build = lambda: CIMProperty("P", arg, type="datetime").value
+    elif via == "CIMProperty-infer":
+        build = lambda: CIMProperty("P", arg).value
+    elif via == "CIMQualifier":
+        build = lambda: CIMQualifier("Q", arg, type="datetime").value
+    else:
+        build = lambda: CIMParameter("P", "datetime", value=arg).value
+    return build, "%r via %s" % (arg, via)
+
+
+def dt_vectors_for_value(rng, x, s, carriers=()):
     """all construction routes for abstract value x whose DSP0004 string
-    (computed by TLC) is s; returns list of (vector, description)"""
+    (computed by TLC) is s; carriers = the tzinfo carrier classes (computed
+    by TLC) under which x is given as a datetime object; returns list of
+    (vector, description)"""
     out = []
     text = "".join(s)
     via = rng.choice(["str", "bytes", "unpack_datetime", "cimvalue"])
@@ -344,20 +422,25 @@ def dt_vectors_for_value(rng, x, s):
     f = x["f"]
     if x["prec"] == -1:
         if x["kind"] == "ts":
-            tz = tzinfo_for(rng, x["off"])
-            if x["off"] == 0 and rng.random() < 0.3:
-                tz = None
-            arg = datetime(f[0], f[1], f[2], f[3], f[4], f[5], f[6], tz)
-            o2, ev2 = dt_vector("datetime", lambda: CIMDateTime(arg), want=x)
-            out.append((ev2, "CIMDateTime(%r)" % (arg,)))
+            o2 = None
+            for carrier in carriers:
+                if not carrier_available(carrier):
+                    continue
+                tz = tzinfo_of(rng, carrier, x["off"])
+                arg = datetime(f[0], f[1], f[2], f[3], f[4], f[5], f[6], tz)
+                build, how = from_object(rng, arg)
+                o2, ev2 = dt_vector("datetime", build, want=x,
+                                    carrier=carrier)
+                out.append((ev2, "CIMDateTime(%s)" % how))
         else:
             if rng.random() < 0.5:
                 arg = timedelta(days=f[0], hours=f[1], minutes=f[2],
                                 seconds=f[3], microseconds=f[4])
             else:
                 arg = timedelta(f[0], f[1] * 3600 + f[2] * 60 + f[3], f[4])
-            o2, ev2 = dt_vector("timedelta", lambda: CIMDateTime(arg), want=x)
-            out.append((ev2, "CIMDateTime(%r)" % (arg,)))
+            build, how = from_object(rng, arg)
+            o2, ev2 = dt_vector("timedelta", build, want=x)
+            out.append((ev2, "CIMDateTime(%s)" % how))
         if o2 is not None and rng.random() < 0.5:
             src = o2
             o3, ev3 = dt_vector("copy", lambda: CIMDateTime(src),
@@ -424,21 +507,24 @@ def mask(text, prec):
     return "".join(chars)
 
 
-def random_dt_vectors(rng, x, prec):
-    """routes for one random value: datetime/timedelta object, copy, the
-    string printed by the real code masked to a random legal precision"""
+def random_dt_vectors(rng, x, prec, carrier="MinutesFromUTC"):
+    """routes for one random value: datetime/timedelta object (the offset
+    of a datetime carried by a tzinfo of class carrier), copy, the string
+    printed by the real code masked to a random legal precision"""
     out = []
     f = x["f"]
     if x["kind"] == "ts":
         arg = datetime(f[0], f[1], f[2], f[3], f[4], f[5], f[6],
-                       tzinfo_for(rng, x["off"]))
+                       tzinfo_of(rng, carrier, x["off"]))
         route = "datetime"
     else:
         arg = timedelta(days=f[0], hours=f[1], minutes=f[2], seconds=f[3],
                         microseconds=f[4])
         route = "timedelta"
-    obj, ev = dt_vector(route, lambda: CIMDateTime(arg), want=x)
-    out.append((ev, "CIMDateTime(%r)" % (arg,)))
+        carrier = ""
+    build, how = from_object(rng, arg)
+    obj, ev = dt_vector(route, build, want=x, carrier=carrier)
+    out.append((ev, "CIMDateTime(%s)" % how))
     if obj is None:
         return out
     text = mask(str(obj), prec)
